@@ -94,7 +94,14 @@ def result_arms(fn, call):
             cur = t['t']
             continue
         if t['k'] == 'call':
-            # the result is passed on (map/map_err/...)
+            # the result is passed on: through an Ok-preserving adaptor (map_err / inspect_err / or_else keep Ok, map keeps
+            # the success), the arms of the adaptor's result are the arms of the original call
+            cal = t.get('callee') or ''
+            if cal.endswith(('Result::<T, E>::map_err', 'Result::<T, E>::inspect_err', 'Result::<T, E>::map', 'Result::<T, E>::inspect')) and t['args'] \
+                    and _mentions_call(fn.term(t['args'][0]), call.bb):
+                inner = result_arms(fn, fn.call_at(cur))
+                inner['via'] = cur
+                return inner
             return {'passed': cur}
         return {}
     return {}
